@@ -63,11 +63,7 @@ package openapi3filter
 // handler or the error callback is proved by the call-graph scan (preserves).
 // (the contract of ValidateRequest is in verif_contracts_request.go; the middleware uses its
 // preserves/records clauses)
-//@ func ValidateResponse
-//@   modifies *
-//@   preserves @C14 Validator.strict, Validator.errFunc, Validator.logFunc, Validator.router, strictResponseWrapper.*, warnResponseWrapper.*, bytes.Buffer.*, []byte
-//@   preserves @C14 handlerCalls, errCalls, cliHdr, cliCode, cliBody
-//@   records respOK := (result == nil)
+// (the contract of ValidateResponse is in verif_contracts_shared.go)
 
 // The wrapped handler is the user's: not one of this package's own handlers (nesting them is
 // outside the proof, as for the writers).
